@@ -31,8 +31,10 @@ FUNCTIONS = [
 BOUNDS = ("temporal skeletons (this module): <= 2 durative actions without parameters, <= 2 conditions and <= 2 effects each "
           "(at-start / at-end / over-all with open or closed ends / one delayed intermediate StartTiming(delay) or EndTiming()-delay), "
           "<= 1 timed effect, <= 1 timed goal, plans of <= 2 action instances (also the same action twice); Boolean fluents b1..b3 and "
-          "n:int[-50,50]; <= 3 symbolic numerators per shard (shard kinds: both start times + one duration; a duration + its interval "
-          "bounds; a delay or timed instant + one start), values q + r/4 with q in a small window; open/closed flags by choice variables")
+          "n:int[-50,50]; <= 3 symbolic numerators per shard in the quick tier (shard kinds: both start times + one duration; a duration + its "
+          "interval bounds; a delay or timed instant + one start + the duration it is measured against), values q + r/4 with q in a small "
+          "window and r fixed per leaf; the open/closed flags the skeleton is about by choice variables.  Thorough: windows wider by 3, every "
+          "open/closed flag free, the second duration symbolic too in the start-time shards (4 numerators)")
 OUTSIDE = ("three or more overlapping actions, action parameters, fluent-dependent durations, real-valued fluents, simulated effects, "
            "state invariants and bounded-type violations (C04), quality metrics, denominators other than 1, 2, 4, GlobalEndTiming in timed goals")
 ASSUMPTIONS = [
